@@ -91,6 +91,10 @@ def _run(ctx, base):
             _l[name] = _l.get(name, 0) + n
             ctx.count(name, n)
 
+        # the two servers: one name a proper prefix of the other, or the same short name in two DNS domains
+        _scenario.HOSTS = ('node1', 'node10') if idx % 3 else ('node7.dc1.example.com', 'node7.dc2.example.com')
+        if not idx % 3:
+            ctx.count('cases_same_short_hostname')
         w = run_case(rng, ctx.tier, count, base=base)
         desc = _scenario.describe(w.scn)
         ctx.count('interleavings')
